@@ -21,12 +21,15 @@ structure Req where
   codec : Nat
   comp : Nat
   t : Int
+  handedFp : String := ""      -- fingerprint of the certificate the request carries ("" none)
+  presentedFp : String := ""   -- fingerprint of the leaf certificate the server at host:port presented to the client's TLS dial
 
 structure Srv where
   port : Nat
   inst : Inst
   start : Int
   stop : Option Int
+  certFp : String := ""        -- the certificate this (recording) server presents
 
 def contains (s sub : String) : Bool := (s.splitOn sub).length > 1
 
@@ -36,7 +39,7 @@ def servers (recs : List Json) : List Srv :=
   starts.map (fun r =>
     let pid := nat (field r "pid")
     let stop := (recs.find? (fun q => str (field q "ev") == "stop" && nat (field q "pid") == pid)).map (fun q => int (field q "t"))
-    ⟨nat (field r "port"), ⟨nat (field r "proto"), nat (field r "ver"), bool (field r "tls"), bool (field r "certs")⟩, int (field r "t"), stop⟩)
+    ⟨nat (field r "port"), ⟨nat (field r "proto"), nat (field r "ver"), bool (field r "tls"), bool (field r "certs")⟩, int (field r "t"), stop, str (field r "certFp")⟩)
 
 /-- maximum number of simultaneously alive servers (sweep over start/stop instants) -/
 def maxAlive (ss : List Srv) : Nat :=
@@ -230,7 +233,8 @@ def handle : Handler := fun op inp impl =>
     let names := perms.map (·.1.name)
     let reqs : List Req := (arr (field impl "requests")).map (fun r =>
       ⟨str (field r "name"), nat (field r "port"), nat (field r "proto"), nat (field r "ver"), bool (field r "hasCert"),
-       bool (field r "hasClientCreds"), strList (field r "hdrName"), nat (field r "codec"), nat (field r "comp"), int (field r "t")⟩)
+       bool (field r "hasClientCreds"), strList (field r "hdrName"), nat (field r "codec"), nat (field r "comp"), int (field r "t"),
+       str (field r "handedFp"), str (field r "presentedFp")⟩)
     let srvs := servers (arr (field impl "servers"))
     let returned := bool (field impl "returned")
     -- validation (C08): a run/skip pattern matching nothing is an error and nothing is dispatched
@@ -243,7 +247,7 @@ def handle : Handler := fun op inp impl =>
     let sentNames := sortStrings (reqs.map (·.name))
     let wantNames := sortStrings (specSel.map ("/".intercalate ·))
     -- a server that reads its input to the end before it answers is a proper server
-    let serverOK := beh == "ok" || beh == "" || beh == "eof"
+    let serverOK := beh == "ok" || beh == "" || beh == "eof" || beh == "owncert"
     -- the client under test broke down mid-run (its own log says so): what it was handed before is
     -- judged, and what the runner does about its servers
     -- (a client of the kinds read* answers nothing at all, also before it dies — or when it never
@@ -294,8 +298,34 @@ def handle : Handler := fun op inp impl =>
     let fixedPort := nat (field impl "fixedPort")
     let probes := (arr (field impl "requests")).map (fun r => str (field r "probe"))
     let portOK := !withPort || (reqs.all (fun r => r.port == fixedPort) && probes.all (· != "dead"))
+    -- (8) whose certificate: a request carries a certificate exactly when its permutation's instance
+    -- uses TLS (client credentials exactly when it uses client certificates), and the certificate is
+    -- the one the server at the request's host:port presents — the recording client dialled it with
+    -- crypto/tls when it read the request (HTTP/3 reference servers listen on UDP: not dialled) — and,
+    -- with recording servers, the one the request's own server (same port, alive, same instance) says it presents
+    let opCert := bool (field inp "opCert")
+    let opFp := str (field impl "opCertFp")
+    let certOK := reqs.all (fun r =>
+      match instOf r.name with
+      | none => false
+      | some i =>
+        r.hasCert == i.tls && r.hasCreds == i.certs && (r.handedFp != "") == i.tls &&
+        (!i.tls || (mode != "both" && r.ver == 3) || r.presentedFp == r.handedFp) &&
+        (!i.tls || mode != "both" || srvs.any (fun s => s.port == r.port && s.inst == i && s.start ≤ r.t &&
+          (match s.stop with | some e => r.t ≤ e | none => true) && s.certFp == r.handedFp)))
+    -- the model of the certificate's source (`batchCert`, the function `handed_cert_is_served` /
+    -- `reference_cert_source` are about): the operator's when the reference server is given the
+    -- operator's files, else the runner's (a recording server echoes it) or the server's own
+    let kind : SrvKind := if mode != "both" then .reference else if beh == "owncert" then .own else if beh == "nocert" then .silent else .echo
+    let mCert (i : Inst) : Option String := (batchCert kind (if opCert then some "operator" else none) "runner" "own" i).bind handedCert
+    let certAgree := reqs.all (fun r =>
+      match instOf r.name with
+      | none => true
+      | some i => match mCert i with
+        | none => !r.hasCert
+        | some c => r.hasCert && ((c == "operator") == (opCert && r.handedFp == opFp)))
     let cliOK := !isCli || int (field impl "exitCode") == 0 || int (field impl "exitCode") == 1
-    let holds := once && hdrOK && addrOK && boundOK && stoppedOK && retOK && returned && grpcOK && markOK && portOK && cliOK
+    let holds := once && hdrOK && addrOK && boundOK && stoppedOK && retOK && returned && grpcOK && markOK && portOK && cliOK && certOK
     -- the model's plan: batches per instance
     let insts := (perms.map (·.1.inst)).eraseDups
     let pl := if v == .ok then plan (perms.map (·.1)) run skip insts else []
@@ -320,7 +350,7 @@ def handle : Handler := fun op inp impl =>
     let afterExit := ClientPipe.run ClientPipe.code (ClientPipe.init ClientPipe.code 2) [.wHand, .pExit]
     let pipeOK := !gone || ClientPipe.senderOut (ClientPipe.settle ClientPipe.code afterExit (ClientPipe.mu afterExit))
     let dispAgree := maxS == 0 || (returned == (final.disp == .returned && pipeOK) && aliveAtRet.length == aliveCount final.threads)
-    { agree := namesAgree && (if serverOK && !broke then sentNames == planNames else true) && batchesAgree && dispAgree && (selected.map (·.name) |>.map ("/".intercalate ·) |> sortStrings) == wantNames,
+    { agree := certAgree && namesAgree && (if serverOK && !broke then sentNames == planNames else true) && batchesAgree && dispAgree && (selected.map (·.name) |>.map ("/".intercalate ·) |> sortStrings) == wantNames,
       holds := holds, nontrivial := reqs.length > 1 && wantNames.length < names.length || srvs.length > 1,
       cls := (if str (field inp "layout") != "" then "files-" ++ str (field inp "layout") ++ ":" else "") ++ (if isCli then "cli:" ++ str (field cli "maxServers") ++ (if withPort then ":port:" else ":") else "") ++ mode ++ ":" ++ beh ++ (if str (field inp "clientStopHow") != "" then ":client-" ++ str (field inp "clientStopHow") else ""),
       model := Json.mkObj [("selected", wantNames.length), ("batches", pl.length), ("maxAlive", alive)],
@@ -334,6 +364,13 @@ def handle : Handler := fun op inp impl =>
         (if !returned then "run did not terminate; " else "") ++
         (if !grpcOK then "gRPC-peer permutation issued for an unsupported case; " else "") ++
         (if !portOK then s!"--port {fixedPort}: a request was addressed to another port, or nobody was listening on the port when the request was handed out (ports {(reqs.map (·.port)).eraseDups}, probes {probes.eraseDups}); " else "") ++
+        (if !certOK then
+          let bad := reqs.filter (fun r => match instOf r.name with
+            | none => true
+            | some i => !(r.hasCert == i.tls && r.hasCreds == i.certs && (r.handedFp != "") == i.tls && (!i.tls || (mode != "both" && r.ver == 3) || r.presentedFp == r.handedFp)))
+          s!"the client was not pointed at a matching server: a request carries a certificate that is not the one its server presents (or carries one / none against its instance's TLS setting): " ++
+          s!"{(bad.take 2).map (fun r => (r.name, "handed " ++ r.handedFp, "presented " ++ r.presentedFp))}{if bad.isEmpty then " (the recording server of the request's instance presents another certificate than the one handed over)" else ""}" ++
+          s!"{if opCert then " [operator-supplied key pair " ++ opFp ++ "]" else ""}; " else "") ++
         (if !cliOK then s!"the command ended with status {int (field impl "exitCode")}: {str (field impl "stderr")}; " else "") ++
         (if !markOK then s!"gRPC-peer permutation handed out under a name that is not its marked name (marker immediately before the test's own name at the end of the full name): {(reqs.filter (fun r => marked r.name && !mMarked.any (fun q => "/".intercalate q.1 == r.name))).map (·.name) |>.take 3}; " else "") }
   | _ => bad ("unknown op " ++ op)
